@@ -12,6 +12,6 @@ CONSTANTS
   MaxRequery = 0
   FixCommitState = TRUE
   SeqSMP = TRUE
-  FixSMPReset = FALSE
-INVARIANTS TypeOK SlotsSuffice SlotBound SMPSound RunOutcomeKnown
+  FixSMPReset = TRUE
+INVARIANTS TypeOK SlotsSuffice SlotBound SMPSound RunOutcome
 CHECK_DEADLOCK FALSE
